@@ -40,7 +40,13 @@ pub fn el_op(rng: &mut Rng) -> Op {
             1 => Op::StRemove,
             _ => Op::StAfter(content(rng)),
         },
-        _ => Op::OnEndTag((0..rng.range(0, 2)).map(|_| token_op(rng)).collect()),
+        _ => {
+            if rng.chance(1, 8) {
+                Op::ClearEndTagHandlers
+            } else {
+                Op::OnEndTag((0..rng.range(0, 2)).map(|_| token_op(rng)).collect())
+            }
+        }
     }
 }
 
